@@ -1,0 +1,72 @@
+//go:build verif
+
+// Contracts for the deductive verifier in /verif (icsvc). Comment-only: this file contributes no code.
+// Syntax: see /verif/DESIGN.md section 2.5. Function names are relative to this package.
+
+package keeper
+
+// ---------------------------------------------------------------- C09: retry discipline for slash packets
+
+//@ func Keeper.PacketSendingPermitted
+//@ let rec := old(k.GetSlashRecord(ctx))
+//@ ensures [no-record] !rec.1 ==> result
+//@ ensures [waiting] rec.1 && rec.0.WaitingOnReply ==> !result
+//@ ensures [delay] rec.1 && !rec.0.WaitingOnReply ==> (result <==> now > rec.0.SendTime + k.GetRetryDelayPeriod(ctx))
+//@ ensures [pure] S == old(S) && E == old(E) && X == old(X)
+
+// ---------------------------------------------------------------- C01 / C08 / C12: receiving validator-set changes
+
+//@ func Keeper.OnRecvVSCPacket
+//@ let ch := old(k.GetProviderChannel(ctx))
+//@ let pend := old(k.GetPendingChanges(ctx))
+//@ requires !ch.1 || ch.0 == packet.DestinationChannel
+//@ requires len(packet.DestinationChannel) > 0
+//@ loop 1 invariant [height-kept] k.GetHeightValsetUpdateID(ctx, height + 1) == newChanges.ValsetUpdateId
+//@ loop 1 invariant [pending-kept] $AccumulateChanges.called && k.GetPendingChanges(ctx).1 && k.GetPendingChanges(ctx).0.ValidatorUpdates == $AccumulateChanges.ret
+//@ loop 1 invariant [channel-kept] k.GetProviderChannel(ctx).1 && k.GetProviderChannel(ctx).0 == packet.DestinationChannel
+//@ loop 1 invariant [deps] E == old(E) && X == old(X)
+//@ ensures [invalid] newChanges.Validate() != nil ==> result != nil && S == old(S)
+//@ ensures [valid] newChanges.Validate() == nil ==> result == nil
+//@ ensures [height-map] result == nil ==> k.GetHeightValsetUpdateID(ctx, height + 1) == newChanges.ValsetUpdateId
+//@ ensures [accumulate-args] result == nil ==> $AccumulateChanges.called && arr($AccumulateChanges.newChanges) == arr(newChanges.ValidatorUpdates) && len($AccumulateChanges.newChanges) == len(newChanges.ValidatorUpdates)
+//@ ensures [accumulate-current] result == nil && pend.1 ==> $AccumulateChanges.called && arr($AccumulateChanges.currentChanges) == arr(pend.0.ValidatorUpdates) && len($AccumulateChanges.currentChanges) == len(pend.0.ValidatorUpdates)
+//@ ensures [accumulate-empty] result == nil && !pend.1 ==> $AccumulateChanges.called && len($AccumulateChanges.currentChanges) == 0
+//@ ensures [pending-stored] result == nil ==> $AccumulateChanges.called && k.GetPendingChanges(ctx).1 && k.GetPendingChanges(ctx).0.ValidatorUpdates == $AccumulateChanges.ret
+//@ ensures [first-fixes] result == nil ==> k.GetProviderChannel(ctx).1 && k.GetProviderChannel(ctx).0 == packet.DestinationChannel
+//@ ensures [no-deps] E == old(E) && X == old(X)
+
+//@ func Keeper.QueueSlashPacket
+//@ let a := validator.Address
+//@ let downtime := infraction == stakingtypes.Infraction_INFRACTION_DOWNTIME
+//@ let out := old(k.OutstandingDowntime(ctx, a))
+//@ ensures [once] downtime && out ==> S == old(S)
+//@ ensures [flag] downtime && !out ==> k.OutstandingDowntime(ctx, a)
+//@ ensures [flag-kept] !downtime ==> k.OutstandingDowntime(ctx, a) == out
+//@ ensures [queued] !(downtime && out) ==> $AppendPendingPacket.called && $AppendPendingPacket.packetType == ccv.SlashPacket
+//@ ensures [no-deps] E == old(E) && X == old(X)
+
+//@ func Keeper.SlashWithInfractionReason
+//@ ensures [unspecified] infraction == stakingtypes.Infraction_INFRACTION_UNSPECIFIED ==> result1 == nil && result0 == 0
+//@ ensures [lookup] infraction != stakingtypes.Infraction_INFRACTION_UNSPECIFIED && !(old(k.IsPrevStandaloneChain(goCtx)) && infractionHeight < old(k.FirstConsumerHeight(goCtx))) ==> $QueueSlashPacket.called && $QueueSlashPacket.valsetUpdateID == old(k.GetHeightValsetUpdateID(goCtx, infractionHeight)) && $QueueSlashPacket.infraction == infraction && $QueueSlashPacket.validator.Address == addr.Bytes() && $QueueSlashPacket.validator.Power == power
+
+//@ func Keeper.OnAcknowledgementPacket
+//@ let res := ack.GetResult()
+//@ let isErr := ack.GetError() != ""
+//@ ensures [bad-len] res != nil && len(res) != 1 ==> result != nil && S == old(S) && E == old(E)
+//@ ensures [no-deps-on-result] !isErr ==> E == old(E)
+
+// ---------------------------------------------------------------- C01 / C08: applying validator-set changes on the consumer
+
+//@ func Keeper.ApplyCCValidatorChanges
+//@ requires [W-ccval-keyed-by-address] forall a bytes :: k.GetCCValidator(ctx, a).1 ==> k.GetCCValidator(ctx, a).0.Address == a
+//@ loop 1 invariant [idx] 0 <= _i && _i <= len(changes)
+//@ loop 1 invariant [W-ccval] forall a bytes :: k.GetCCValidator(ctx, a).1 ==> k.GetCCValidator(ctx, a).0.Address == a
+//@ loop 1 invariant [untouched] forall a bytes :: (forall j int :: 0 <= j && j < _i ==> cryptocodec.FromCmtProtoPublicKey(changes[j].GetPubKey()).0.Address() != a) ==> S[types.CrossChainValidatorKey(a)] == old(S[types.CrossChainValidatorKey(a)]) && S[types.OutstandingDowntimeKey(a)] == old(S[types.OutstandingDowntimeKey(a)])
+//@ loop 1 invariant [flag-kept] forall a bytes :: old(k.GetCCValidator(ctx, a)).1 && old(k.OutstandingDowntime(ctx, a)) && (forall j int :: 0 <= j && j < _i && cryptocodec.FromCmtProtoPublicKey(changes[j].GetPubKey()).0.Address() == a ==> changes[j].Power >= 1) ==> k.OutstandingDowntime(ctx, a) && k.GetCCValidator(ctx, a).1
+//@ loop 1 invariant [out-len] len(ret) <= _i
+//@ loop 1 invariant [deps] E == old(E)
+//@ ensures [untouched] forall a bytes :: (forall j int :: 0 <= j && j < len(changes) ==> cryptocodec.FromCmtProtoPublicKey(changes[j].GetPubKey()).0.Address() != a) ==> S[types.CrossChainValidatorKey(a)] == old(S[types.CrossChainValidatorKey(a)]) && S[types.OutstandingDowntimeKey(a)] == old(S[types.OutstandingDowntimeKey(a)])
+//@ ensures [flag-kept] forall a bytes :: old(k.GetCCValidator(ctx, a)).1 && old(k.OutstandingDowntime(ctx, a)) && (forall j int :: 0 <= j && j < len(changes) && cryptocodec.FromCmtProtoPublicKey(changes[j].GetPubKey()).0.Address() == a ==> changes[j].Power >= 1) ==> k.OutstandingDowntime(ctx, a) && k.GetCCValidator(ctx, a).1
+//@ ensures [W-ccval] forall a bytes :: k.GetCCValidator(ctx, a).1 ==> k.GetCCValidator(ctx, a).0.Address == a
+//@ ensures [out-len] len(result) <= len(changes)
+//@ ensures [no-effects] E == old(E)
